@@ -100,7 +100,9 @@ fn one_case<const K: usize>(r: &mut Rng, id: usize, out: &mut String) {
         }
         let g_before = sx_tree(&g);
         let mut h = f.clone();
-        let res = catch(AssertUnwindSafe(|| h.compose::<false, false>(&g)));
+        // both un-pruned variants: without and with the progress visitor
+        let verbose = r.chance(1, 4);
+        let res = catch(AssertUnwindSafe(|| if verbose { h.compose::<false, true>(&g) } else { h.compose::<false, false>(&g) }));
         let g_after = sx_tree(&g);
         let (oc, dump, pts) = match res {
             Ok(()) => {
